@@ -311,6 +311,19 @@ def run_item(item: tuple) -> dict:
         fps = set()
         rec = execute(spec, choices, fault, fps=fps, monitors=_mon(spec),
                       record_steps=(fault is None and spec.get('want_steps')))
+    if rec['sched_error'] is not None and spec.get('numeric') \
+            and rec['sched_error'][0] == 'divergence':
+        # The scenario runs numerical code (a whole bqskit.compile()): the
+        # number of tasks it spawns depends on optimiser results that are not
+        # bit-reproducible across worker processes, so a prefix recorded in
+        # one process may not replay in another.  Such a schedule is counted
+        # as not explored (a cap), never judged and never an alarm.
+        return {
+            'spec': spec['name'], 'choices': sparse(choices), 'fault': fault,
+            'verdicts': [], 'outcome': 'diverged(numeric)', 'steps': 0,
+            'decisions': 0, 'newfps': set(), 'cap': None, 'children': [],
+            'diverged': True,
+        }
     if rec['sched_error'] is not None:
         # re-run once: a divergence must be reproducible to be a harness bug
         raise HarnessError(
@@ -376,6 +389,9 @@ def explore(ctx: Ctx, specs: list[dict], judge: str, bound: int,
         for r in pmap(run_item, frontier, procs=ctx.procs,
                       deadline=deadline, chunksize=4):
             n_done += 1
+            if r.get('diverged'):
+                stats['diverged_numeric'] += 1
+                continue
             stats['executions'] += 1
             stats['transitions'] += r['steps']
             stats['decisions'] += r['decisions']
@@ -412,6 +428,10 @@ def explore(ctx: Ctx, specs: list[dict], judge: str, bound: int,
     if stats['horizon_caps']:
         ctx.cap(f'{part or judge}: {stats["horizon_caps"]} executions hit '
                 'the step horizon')
+    if stats['diverged_numeric']:
+        ctx.cap(f'{part or judge}: {stats["diverged_numeric"]} schedules of '
+                'numerical scenarios could not be replayed (optimiser results '
+                'not bit-reproducible across processes) and were not judged')
     out = dict(stats)
     out['per_scenario'] = {k: dict(v) for k, v in per_spec.items()}
     return out
